@@ -53,6 +53,14 @@ def Oti.wf (o : Oti) : Prop :=
   validEnc o.enc = true ∧ o.inst < 65536 ∧ o.maxSbl < 2^32 ∧ o.esl < 65536 ∧ o.parity < 2^32 ∧
   (∀ s, o.scheme = some s → s.wf)
 
+/-- the scheme-specific parameters, when present, are those of the encoding id -/
+def Oti.coherent (o : Oti) : Prop :=
+  match o.scheme with
+  | none => True
+  | some (.rs2m _ _) => o.enc = 2
+  | some (.raptorq _ _ _) => o.enc = 6
+  | some (.raptor _ _ _) => o.enc = 1
+
 /-- the FEC-OTI-* XML attributes (`OtiAttributes`, and the same six optional attributes of
     `fdtinstance::File` / `FdtInstance`).  `ssi` = the bytes that are base64-encoded into
     `FEC-OTI-Scheme-Specific-Info` (base64 itself is a library). -/
@@ -291,7 +299,24 @@ inductive AddRes where
   | panic
   deriving DecidableEq, Repr, Inhabited
 
-/-- the OTI a `FileDesc` ends up with: override or default, Z := number of source blocks for
+/-- `scheme.source_blocks_length = nb_blocks` for the scheme matching the encoding id (`FileDesc::new`) -/
+def setZ (o : Oti) (nb : Nat) : Oti :=
+  match o.scheme with
+  | some (.raptorq _ n al) => if o.enc = 6 then { o with scheme := some (.raptorq nb n al) } else o
+  | some (.raptor _ n al) => if o.enc = 1 then { o with scheme := some (.raptor nb n al) } else o
+  | _ => o
+
+/-- the Reed-Solomon GF(2^8) admission checks of `FileDesc::new`: at least one parity symbol, and a block
+    (largest source block + parity) of at most 256 symbols.  `.ok true` = refused (`Err`), `.error` = panic. -/
+def rsRefused (o : Oti) (transferLength : Nat) : Rs Bool :=
+  if o.enc = 5 ∨ o.enc = 129 then
+    if o.parity = 0 then .ok true else
+    match Partition.blockPartitioning o.maxSbl transferLength o.esl with
+    | .error w => .error w
+    | .ok q => .ok (decide (q.1 + o.parity > 256))
+  else .ok false
+
+/-- the OTI a `FileDesc` ends up with: override or default, Z := max(number of source blocks, 1) for
     RaptorQ / Raptor (`FileDesc::new`).  `none` = `Err`, `.error` = panic. -/
 def effectiveOti (dflt : Oti) (a : ObjAttrs) : Rs (Option Oti) :=
   let o := a.oti.getD dflt
@@ -299,24 +324,18 @@ def effectiveOti (dflt : Oti) (a : ObjAttrs) : Rs (Option Oti) :=
   | .error w => .error w
   | .ok mtl =>
     if a.transferLength > mtl then .ok none else
+    match rsRefused o a.transferLength with
+    | .error w => .error w
+    | .ok true => .ok none
+    | .ok false =>
     if o.enc = 6 ∨ o.enc = 1 then
       match Partition.blockPartitioning o.maxSbl a.transferLength o.esl with
       | .error w => .error w
       | .ok q =>
-        let nb := q.2.2.2
-        match o.scheme with
-        | none => .ok none
-        | some sch =>
-          if o.enc = 6 then
-            if nb > 255 then .ok none else
-            match sch with
-            | .raptorq _ n al => .ok (some { o with scheme := some (.raptorq nb n al) })
-            | _ => .ok (some o)
-          else
-            if nb > 65535 then .ok none else
-            match sch with
-            | .raptor _ n al => .ok (some { o with scheme := some (.raptor nb n al) })
-            | _ => .ok (some o)
+        -- scheme parameters missing, or more source blocks than Z can hold (u8 for RaptorQ, u16 for Raptor): `Err`
+        if o.scheme.isNone then .ok none
+        else if (o.enc = 6 ∧ q.2.2.2 > 255) ∨ (o.enc = 1 ∧ q.2.2.2 > 65535) then .ok none
+        else .ok (some (setZ o (max q.2.2.2 1)))
     else .ok (some o)
 
 /-- `Fdt::add_object`: refused once complete; TOI taken from the allocator *before* `FileDesc::new` may fail -/
